@@ -81,6 +81,32 @@ example : K_malformed 10 [] = true ∧ K_malformed 10 [227, 1, 0] = true ∧ K_m
 /-- and what the writer produced is outside it -/
 example : K_malformed 10 (plainCode.write 10) = false ∧ K_malformed 11 (cellCode.write 11) = false := by decide
 
+/-! ### the two full-strength statements about the reader, kept visible, and their refutation at the witnesses -/
+
+/-- the reader reads back every file the writer writes (up to the documented normal form) -/
+def ErgRoundtripStatement : Prop :=
+  ∀ (minor : Nat) (c : Code), c.wf → ergCode minor (c.write minor) = .ok (c.norm minor) []
+
+/-- the reader never crashes, whatever the bytes -/
+def ReaderTotalStatement : Prop := ∀ (minor : Nat) (bs : Bytes), (ergCode minor bs).isCrash = false
+
+/-- `ErgRoundtripStatement` is false of the code: the 3.11 encoding of a code object with a cell variable (finding
+    C15-reader-311-closure-kind). What remains true is exercised differentially on every run (every `w`/`p` case outside the class). -/
+theorem C15_erg_roundtrip_fails : ¬ ErgRoundtripStatement := by
+  intro h
+  have h1 := h 11 cellCode (wfc_of_wfb cellCode (by decide))
+  have h2 : (ergCode 11 (cellCode.write 11)).isCrash = true := by decide
+  rw [h1] at h2
+  simp [R.isCrash] at h2
+
+/-- `ReaderTotalStatement` is false of the code: the empty file (finding C15-reader-crash-on-malformed) -/
+theorem C15_reader_total_fails : ¬ ReaderTotalStatement := by
+  intro h
+  have h1 := h 10 []
+  have h2 : (ergCode 10 []).isCrash = true := by decide
+  rw [h1] at h2
+  exact Bool.false_ne_true h2
+
 /-- the reader does report (rather than crash on) type codes it does not know and invalid UTF-8 -/
 example : (match ergConst 10 8 [120, 0] with | .err _ => true | _ => false) = true := by decide
 example : (match ergConst 10 8 [117, 1, 0, 0, 0, 255] with | .err _ => true | _ => false) = true := by decide
